@@ -141,6 +141,27 @@ def mutations(name, text, seed, tier):
                     continue
                 a, b = toks[j][1], toks[j][2]
                 yield {'kind': 'dangling-' + toks[i][0], 'index': j, 'with': UNDECLARED, 'text': text[:a] + UNDECLARED + text[b:]}
+        # a cellRef that names a cell declared only in ANOTHER library than the one its libraryRef gives is just as undeclared
+        cells_of = {}
+        cur = None
+        def name_at(k):
+            if k < T and toks[k][0] == '(' and k + 2 < T and low[k + 1] == 'rename':
+                return toks[k + 2][0]
+            return toks[k][0] if k < T else None
+        for i, t in enumerate(low):
+            if t in ('library', 'external') and i > 0 and toks[i - 1][0] == '(':
+                cur = (name_at(i + 1) or '').lower(); cells_of.setdefault(cur, set())
+            if t == 'cell' and i > 0 and toks[i - 1][0] == '(' and cur is not None:
+                cells_of[cur].add((name_at(i + 1) or '').lower())
+        for i, t in enumerate(low):
+            if t == 'cellref' and i + 4 < T and toks[i + 2][0] == '(' and low[i + 3] == 'libraryref':
+                lib = toks[i + 4][0].lower()
+                here = cells_of.get(lib, set())
+                a, b = toks[i + 1][1], toks[i + 1][2]
+                for other, cs in sorted(cells_of.items()):
+                    if other == lib: continue
+                    for cname in sorted(cs - here)[:2]:
+                        yield {'kind': 'dangling-cellRef', 'index': i + 1, 'with': cname, 'text': text[:a] + cname + text[b:]}
 
 
 # ------------------------------------------------------------------ canon (names, shapes, connectivity, data) - own walk
